@@ -112,4 +112,52 @@ theorem bigdec_pickLoop_step (c : BigCfg) (used : List Bool) (parentHost first f
   simp only [(bigdec_pickRound _ _).1, (bigdec_pickRound _ _).2, Option.some.injEq]
   rw [pickLoop]
 
+
+/-- the host-avoidance / use-all loop written with the decisions lifted from the source only (same fuel convention as
+`pickLoop`): this is what the Go text says, with `roIndex`, `childHost`, `notSameHost` as the loop state -/
+def pickLoopSrc (c : BigCfg) (used : List Bool) (parentHost first : Nat) :
+    (fuel : Nat) → (roIndex childHost : Nat) → (notSameHost : Bool) → Option Nat
+  | 0, _, _, _ => none
+  | fuel + 1, ro, ch, ns =>
+    if Gen.C12Big.pickCond used (Gen.C12Big.useAll c.ilLen c.nodes) c.ilLen parentHost ro ch ns = some true then
+      let ro' := ((Gen.C12Big.roIndexNext ro c.ilLen).getD 0).toNat
+      if Gen.C12Big.pickUsed used (Gen.C12Big.useAll c.ilLen c.nodes) ro' = some true then
+        pickLoopSrc c used parentHost first fuel ro' ch (if Gen.C12Big.pickRound ro' first then false else ns)
+      else if Gen.C12Big.pickRound2 ro' first then some ro'
+      else pickLoopSrc c used parentHost first fuel ro' (c.hosts.getD ro' 0) ns
+    else some ro
+
+/-- **the model's loop is the loop of the source's decisions, for every number of turns** (induction over the fuel; the
+invariant `roIndex < ilLen = len(used)` is kept by `(roIndex + 1) % ilLen`) -/
+theorem bigdec_pickLoop_eq (c : BigCfg) (used : List Bool) (parentHost first : Nat) (hl : used.length = c.ilLen) :
+    ∀ (fuel ro ch : Nat) (ns : Bool), ro < c.ilLen →
+      pickLoop c used parentHost first fuel ro ch ns = pickLoopSrc c used parentHost first fuel ro ch ns := by
+  intro fuel
+  induction fuel with
+  | zero => intro ro ch ns _; rfl
+  | succ fuel ih =>
+    intro ro ch ns hro
+    have hpos : 0 < c.ilLen := by omega
+    have hnext : ((Gen.C12Big.roIndexNext ro c.ilLen).getD 0).toNat < c.ilLen := by
+      rw [bigdec_roIndexNext _ _ hpos]
+      simp only [Option.getD_some, Int.toNat_natCast]
+      exact Nat.mod_lt _ hpos
+    rw [bigdec_pickLoop_step c used parentHost first fuel ro ch ns hl hro]
+    simp only [pickLoopSrc]
+    split
+    · split
+      · exact ih _ _ _ hnext
+      · split
+        · rfl
+        · exact ih _ _ _ hnext
+    · rfl
+
+/-- hence `pick` (the server of the next child) is the source's loop started as the source starts it: at `roIndex`, with
+`childHost` the host of that server, `notSameHost = true`, `roIndexFirst = roIndex` -/
+theorem bigdec_pick_eq (c : BigCfg) (st : BigSt) (parentHost : Nat) (hl : st.used.length = c.ilLen)
+    (hro : st.roIndex < c.ilLen) :
+    pick c st parentHost =
+      pickLoopSrc c st.used parentHost st.roIndex (2 * c.ilLen + 3) st.roIndex (c.hosts.getD st.roIndex 0) true :=
+  bigdec_pickLoop_eq c st.used parentHost st.roIndex hl _ _ _ _ hro
+
 end C12
